@@ -1,6 +1,6 @@
 (* One entry point for the correspondence check: numeric opcode + wire value. *)
 From WS Require Import Base.Py.
-From WS Require Folding.Model TP.Model Evaluate.Model Puddle.Model Separator.Model.
+From WS Require Folding.Model TP.Model Evaluate.Model Puddle.Model Separator.Model Dibs.Model Baseline.Model.
 
 Definition dispatch (op : Z) (j : J) : J :=
   match op with
@@ -15,5 +15,8 @@ Definition dispatch (op : Z) (j : J) : J :=
   | 1101 => Puddle.Model.run_segment j
   | 1102 => Puddle.Model.run_history j
   | 801 => Separator.Model.run_separator j
+  | 1001 => Dibs.Model.run_dibs j
+  | 101 => Baseline.Model.run_baseline j
+  | 102 => Baseline.Model.run_baseline_oracle j
   | _ => j_bad
   end%Z.
